@@ -126,8 +126,9 @@ func concStream(seed uint64, tier string, outDir string, props map[string]bool, 
 		inCols = append(inCols, colDesc{name: "bin", f: jsonline.Binary, typName: "[]byte"})
 		outCols = append(outCols, colDesc{name: "bin", f: jsonline.Binary, typName: "[]byte"}, colDesc{name: "sub", sub: []colDesc{{name: "q", f: jsonline.Numeric}}})
 		// date and date-time columns are always present too: their conversions go through package-level layouts
-		inCols = append(inCols, colDesc{name: "dt", f: jsonline.Date, typName: "time.Time"}, colDesc{name: "ts", f: jsonline.DateTime})
-		outCols = append(outCols, colDesc{name: "dt", f: jsonline.Date}, colDesc{name: "ts", f: jsonline.String, typName: "time.Time"})
+		inCols = append(inCols, colDesc{name: "dt", f: jsonline.Date, typName: "time.Time"}, colDesc{name: "ts", f: jsonline.DateTime}, colDesc{name: "t2", f: jsonline.DateTime},
+			colDesc{name: "sub", sub: []colDesc{{name: "q", f: jsonline.Numeric}}})
+		outCols = append(outCols, colDesc{name: "dt", f: jsonline.Date}, colDesc{name: "ts", f: jsonline.String, typName: "time.Time"}, colDesc{name: "t2", f: jsonline.DateTime})
 		ti, to := buildTemplate(inCols), buildTemplate(outCols)
 		G := 2 + r.intn(15)
 		// per-goroutine programs
@@ -138,6 +139,7 @@ func concStream(seed uint64, tier string, outDir string, props map[string]bool, 
 				if r.bool() {
 					setMember(doc, "dt", &jnode{kind: 's', s: []string{"2021-09-24", "1999-12-31", "2020-02-29"}[r.intn(3)]})
 					setMember(doc, "ts", &jnode{kind: 's', s: []string{"2021-09-24T10:11:12Z", "2021-10-31T02:30:00.5+02:00"}[r.intn(2)]})
+					setMember(doc, "t2", &jnode{kind: 'n', s: []string{"1632478272", "0", "253402214400"}[r.intn(3)]})
 				}
 				programs[g] = append(programs[g], c.lineOf(doc))
 			}
